@@ -187,6 +187,12 @@ class World:
             w[kind] = 0
         return w
 
+    def _has_grouped_data(self, h, t) -> bool:
+        model = self.h[h].model
+        uid = self.resolve(h, t)
+        rec = model.recs.get(uid) if uid else None
+        return bool(rec and rec["kind"] == "object" and not rec.get("concat") and any(pg["props"] for pg in rec.get("pgs", {}).values()))
+
     def gen_op(self, rng: random.Random, op_id: int) -> dict:
         pending = getattr(self, "pending", None)
         if pending:
@@ -218,6 +224,21 @@ class World:
                 ]
                 if orng.random() < 0.4:
                     del self.pending[1:3]
+            elif kind == "copy" and op.get("dh", h) != h and op.get("children") and not op.get("mask") and self.prop in ("C09", "C06", "C12", "C01", "C02") \
+                    and self._has_grouped_data(h, op["t"]) and orng.random() < 0.6:
+                # pattern "partial identifier retention": copy into the other workspace -> copy that copy next to itself -> move one of
+                # the first copy's data sets to another fitting object there -> remove the first copy -> copy the source again:
+                # the root's identifier is free again in the target, one child's identifier is still in use
+                dh = op["dh"]
+                self.sim.probe("partial_retention_planned")
+                self.pending = [
+                    {"id": -1, "k": "copy", "sub": rng.getrandbits(64), "h": dh, "keep": False, "t": {"by": op_id, "n": 0, "fb": 0, "want": "entity"},
+                     "dh": dh, "d": None, "children": True, "clear": False},
+                    {"id": -1, "k": "move_data", "sub": rng.getrandbits(64), "h": dh, "keep": False, "t": {"by": op_id, "n": 1, "fb": 0, "want": "data"},
+                     "d": None, "pick": orng.randrange(1000), "only_created_by": op_id},
+                    {"id": -1, "k": "rm_ws", "sub": rng.getrandbits(64), "h": dh, "keep": False, "t": {"by": op_id, "n": 0, "fb": 0, "want": "entity"}},
+                    {**op, "sub": rng.getrandbits(64)},
+                ]
             if kind == "add_data" and op.get("pg") and op["assoc"] != "OBJECT" and orng.random() < 0.6:
                 # burst: more data of the same association into the same property group of the same object
                 self.pending = []
@@ -794,6 +815,19 @@ class World:
                             and r["attrs"].get("Association") in ("VERTEX", "CELL"))
             if t is not None:
                 return {"t": t, "dh": h, "d": None, "children": True, "clear": False, "mask": rng.getrandbits(24) | (1 << 24)}
+        if self.prop in ("C09", "C06", "C12") and self.copies and rng.random() < 0.12:
+            # a data set copied alone to a copy of its parent (possibly in the other workspace): it keeps its identifier where free,
+            # so that a later copy of the whole parent retains only part of the identifiers
+            model = self.h[h].model
+            pairs = [(c["src"], c["dh"], c["dst"]) for c in self.copies if c["h"] == h and c["src"] in model.recs and c["dst"] in self.h[c["dh"]].model.recs
+                     and model.recs[c["src"]]["kind"] == "object"]
+            if pairs:
+                src, dh2, dst = pairs[rng.randrange(len(pairs))]
+                t = self.target(rng, h, "data", lambda r: r["parent"] == src and not r.get("concat"))
+                d = self.target(rng, dh2, "container", lambda r: r["uid"] == dst) or self.target(rng, dh2, "entity", lambda r: r["uid"] == dst)
+                if t is not None and d is not None:
+                    return {"t": t, "dh": dh2, "d": d, "children": True, "clear": False}
+            t = None
         if rng.random() < 0.35:
             t = self.target(rng, h, "object", lambda r: bool(r.get("pgs")))
         if t is None and rng.random() < 0.25 and self.copies:
@@ -804,7 +838,7 @@ class World:
         if t is None:
             return None
         dh = h
-        if "B" in self.h and rng.random() < 0.35:
+        if "B" in self.h and rng.random() < (0.6 if self._has_grouped_data(h, t) else 0.35):
             dh = "B" if h == "A" else "A"
         mode = rng.choice(["same", "other"])
         d = self.target(rng, dh, "container") if (mode == "other" or dh != h) else None
@@ -829,7 +863,12 @@ class World:
         # keep the copy well-formed: data goes under an object/group that can take it
         if rec["kind"] == "data":
             if op["d"] is not None or dh != h:
-                return "skipped"   # data copies stay under the same parent (lengths match)
+                # data copies stay under the same parent (lengths match) -- or go to a copy of that parent
+                twins = {c["dst"] for c in self.copies if c["src"] == rec["parent"] and c["h"] == h and c["dh"] == dh} \
+                    | {c["src"] for c in self.copies if c["dst"] == rec["parent"] and c["dh"] == h and c["h"] == dh}
+                if dest not in twins or rec.get("concat"):
+                    return "skipped"
+                self.sim.probe("copy_data_to_twin_parent")
         if rec.get("concat"):
             if not drec.get("concat_group") and rec["kind"] == "object":
                 return "skipped"
@@ -987,8 +1026,14 @@ class World:
                 d += 1
                 p = model.recs[p]["parent"]
             depth[u] = d
+        reachable, stack = set(), [ws.root]
+        while stack:     # (what the live tree still shows; a lookup by identifier would also find removed entities the caller holds)
+            node = stack.pop()
+            reachable.add(ustr(node.uid))
+            stack.extend(snapshot.children_of(node))
+        del node, stack
         for u in sorted(subtree, key=lambda x: -depth[x]):
-            if u in model.recs and ws.get_entity(uid_obj(u))[0] is None:
+            if u in model.recs and u not in reachable:
                 gone = model.remove(u)
                 for g in gone:
                     model.zombies[g]["group"] = u
@@ -1204,10 +1249,14 @@ class World:
         uid = self.resolve(h, op["t"], lambda r: not r.get("concat") and r["cls"] not in ("CommentsData",))
         if uid is None:
             return "skipped"
+        if op.get("only_created_by") is not None and (h, uid) not in self.created.get(op["only_created_by"], []):
+            return "skipped"
         rec = model.recs[uid]
         src = model.recs[rec["parent"]]
         if src["kind"] != "object":
             return "skipped"
+        if op.get("only_created_by") is not None:
+            self.sim.probe("partial_retention_pattern")
         assoc = rec["attrs"].get("Association", "OBJECT")
         n_src = self._n_for(src, assoc)
         fits = [u for u in model.alive("object") if u != rec["parent"] and not model.recs[u].get("concat") and model.recs[u]["cls"] != "Drillhole"
